@@ -17,6 +17,9 @@ Lemma width_val : INT_WIDTH = 6. Proof. vm_compute. reflexivity. Qed.
 Definition lo (signed : bool) : Z := if signed then -9223372036854775808 else 0.
 Definition hi (signed : bool) : Z := if signed then 9223372036854775807 else 18446744073709551615.
 
+Lemma lo_lt_hi : forall s, lo s < hi s.
+Proof. intros []; unfold lo, hi; lia. Qed.
+
 Lemma ibc_cases : forall v signed,
   (lo signed <= v <= hi signed /\ int_bounds_check v signed = Ok tt) \/
   (v < lo signed /\ exists b, int_bounds_check v signed = Raise (IntOverflowError signed b true)) \/
@@ -42,14 +45,16 @@ Qed.
 Lemma ibc_underflow_iff : forall v signed,
   (exists b, int_bounds_check v signed = Raise (IntOverflowError signed b true)) <-> v < lo signed.
 Proof.
-  intros v s. destruct (ibc_cases v s) as [[H E] | [[H [b E]] | [H [b E]]]]; rewrite E; split; intros X;
+  intros v s. pose proof (lo_lt_hi s) as LH.
+  destruct (ibc_cases v s) as [[H E] | [[H [b E]] | [H [b E]]]]; rewrite E; split; intros X;
     try (destruct X as [b' X]; discriminate X); try lia; try (eexists; reflexivity).
 Qed.
 
 Lemma ibc_overflow_iff : forall v signed,
   (exists b, int_bounds_check v signed = Raise (IntOverflowError signed b false)) <-> hi signed < v.
 Proof.
-  intros v s. destruct (ibc_cases v s) as [[H E] | [[H [b E]] | [H [b E]]]]; rewrite E; split; intros X;
+  intros v s. pose proof (lo_lt_hi s) as LH.
+  destruct (ibc_cases v s) as [[H E] | [[H [b E]] | [H [b E]]]]; rewrite E; split; intros X;
     try (destruct X as [b' X]; discriminate X); try lia; try (eexists; reflexivity).
 Qed.
 
@@ -60,27 +65,49 @@ Proof.
 Qed.
 
 (* ---- literal_type ---- *)
+Definition lt_spec (hint : bool) (v : Z) : option kind :=
+  if hint && (0 <=? v)
+  then (if v <=? 18446744073709551615 then Some KNat else None)
+  else (if (-9223372036854775808 <=? v) && (v <=? 9223372036854775807) then Some KInt else None).
+
+Lemma literal_type_spec : forall hint v,
+  match lt_spec hint v with
+  | Some k => literal_type hint v = Ok k
+  | None => exists s b u, literal_type hint v = Raise (IntOverflowError s b u)
+  end.
+Proof.
+  intros hint v. unfold lt_spec, literal_type.
+  destruct (hint && (0 <=? v)) eqn:G.
+  - destruct (ibc_cases v false) as [[H E] | [[H [b E]] | [H [b E]]]]; unfold lo, hi in H; rewrite E; cbn [bind];
+      destruct (v <=? 18446744073709551615) eqn:L; try lia; try reflexivity; try (do 3 eexists; reflexivity).
+  - destruct (ibc_cases v true) as [[H E] | [[H [b E]] | [H [b E]]]]; unfold lo, hi in H; rewrite E; cbn [bind];
+      destruct (-9223372036854775808 <=? v) eqn:L1; destruct (v <=? 9223372036854775807) eqn:L2; cbn [andb];
+      try lia; try reflexivity; try (do 3 eexists; reflexivity).
+Qed.
+
 Lemma literal_type_nat_iff : forall hint v,
   literal_type hint v = Ok KNat <-> hint = true /\ 0 <= v <= 18446744073709551615.
 Proof.
-  intros hint v. unfold literal_type.
-  destruct (hint && (Z.leb 0 v)) eqn:G.
-  - destruct (ibc_cases v false) as [[H E] | [[H [b E]] | [H [b E]]]]; rewrite E; cbn [bind]; unfold lo, hi in H;
-      split; intros; try discriminate; try lia; try (destruct hint; cbn in G; [split; [reflexivity|lia] | discriminate]).
-  - destruct (ibc_cases v true) as [[H E] | [[H [b E]] | [H [b E]]]]; rewrite E; cbn [bind];
-      split; intros X; try discriminate; destruct X as [-> X]; cbn in G; lia.
+  intros hint v. pose proof (literal_type_spec hint v) as S. unfold lt_spec in S.
+  revert S.
+  destruct hint; cbn [andb];
+    destruct (0 <=? v) eqn:A; destruct (v <=? 18446744073709551615) eqn:B;
+    destruct (-9223372036854775808 <=? v) eqn:C; destruct (v <=? 9223372036854775807) eqn:D; cbn [andb]; intros S;
+    try (destruct S as [s0 [b0 [u0 S]]]); rewrite S; split; intros X; try discriminate X; try lia;
+    try (destruct X as [X _]; discriminate X); try (split; [reflexivity | lia]).
 Qed.
 
 Lemma literal_type_int_iff : forall hint v,
   literal_type hint v = Ok KInt <-> (hint = false \/ v < 0) /\ -9223372036854775808 <= v <= 9223372036854775807.
 Proof.
-  intros hint v. unfold literal_type.
-  destruct (hint && (Z.leb 0 v)) eqn:G.
-  - destruct (ibc_cases v false) as [[H E] | [[H [b E]] | [H [b E]]]]; rewrite E; cbn [bind];
-      split; intros X; try discriminate; destruct hint; cbn in G; try discriminate; destruct X as [[X|X] Y]; try discriminate; lia.
-  - destruct (ibc_cases v true) as [[H E] | [[H [b E]] | [H [b E]]]]; rewrite E; cbn [bind]; unfold lo, hi in H;
-      split; intros X; try discriminate; try lia.
-    split; [| lia]. destruct hint; [right; cbn in G; lia | left; reflexivity].
+  intros hint v. pose proof (literal_type_spec hint v) as S. unfold lt_spec in S.
+  revert S.
+  destruct hint; cbn [andb];
+    destruct (0 <=? v) eqn:A; destruct (v <=? 18446744073709551615) eqn:B;
+    destruct (-9223372036854775808 <=? v) eqn:C; destruct (v <=? 9223372036854775807) eqn:D; cbn [andb]; intros S;
+    try (destruct S as [s0 [b0 [u0 S]]]); rewrite S; split; intros X; try discriminate X; try lia;
+    try (destruct X as [[X|X] Y]; try discriminate X; lia);
+    try (split; [first [left; reflexivity | right; lia] | lia]).
 Qed.
 
 Lemma literal_type_total : forall hint v, exists r, literal_type hint v = r /\
